@@ -674,8 +674,11 @@ def clip(a, a_min=None, a_max=None, out=None, out_like=None, sizing='optimal', m
         val_min = kwargs.pop('a_min', None)
         val_max = kwargs.pop('a_max', None)
 
-        if val_min is not None: val_min *= 2**x.n_frac
-        if val_max is not None: val_max *= 2**x.n_frac
+        # limits are scaled in new objects (never in place: they belong to the caller); a missing limit does not clip
+        if isinstance(val_min, Fxp): val_min = val_min.get_val()
+        if isinstance(val_max, Fxp): val_max = val_max.get_val()
+        val_min = np.asarray(val_min) * 2**x.n_frac if val_min is not None else -np.inf
+        val_max = np.asarray(val_max) * 2**x.n_frac if val_max is not None else np.inf
 
         return utils.clip(x.val, val_min=val_min, val_max=val_max) * precision_cast(2**(n_frac - x.n_frac))
 
